@@ -229,3 +229,21 @@ Theorem C12_points_sweep_mirror : forall (p0 p1 : v3 R),
   sweep_points atan (fun x => x * x) true (mirror_y p0) (mirror_y p1) = - sweep_points atan (fun x => x * x) false p0 p1.
 Proof. exact sweep_points_mirror. Qed.
 Print Assumptions C12_points_sweep_mirror.
+
+(* the lifting line on Kuchemann's locus of aerodynamic centres (Model/Kuchemann.v, Proofs/KuchemannP.v): the offset depends on the
+   sweep only through its magnitude - the two halves of a wing, whose internal sweep angles are opposite, carry the same offset station by
+   station; stations mirrored about the middle of the semispan deviate from the mid value -(1 - 1/K)/4 by opposite amounts, and a station
+   as far from the centre as from the tip takes it; the interpolation weight lies in (0, 1].  For any cos, tan and power function. *)
+From MuxV Require Import Model.Kuchemann Proofs.KuchemannP.
+Theorem C12_kuchemann_offset : forall fcos ftan fpow pi CLa RA sw b,
+  (forall nodes, offsets fcos ftan fpow pi CLa RA (- sw) b nodes = offsets fcos ftan fpow pi CLa RA sw b nodes) /\
+  (forall loc c, offset_at fcos ftan fpow pi CLa RA sw b loc c + offset_at fcos ftan fpow pi CLa RA sw b (1 - loc) c
+                 = 2 * mid_value fcos fpow pi CLa RA sw) /\
+  (forall loc c, c <> 0 -> loc * b = b - loc * b -> offset_at fcos ftan fpow pi CLa RA sw b loc c = mid_value fcos fpow pi CLa RA sw).
+Proof.
+  intros. split; [intros; apply offsets_sweep_sign | split; [intros; apply offset_antisymmetric | intros; apply offset_mid; assumption]].
+Qed.
+Print Assumptions C12_kuchemann_offset.
+Theorem C12_kuchemann_weight : forall pi sd x, 0 <= 2 * pi * sd * x -> 0 < lam pi sd x <= 1.
+Proof. exact lam_bounds. Qed.
+Print Assumptions C12_kuchemann_weight.
